@@ -43,7 +43,9 @@ func racingScenario(k int) {
 			bad.Store(key + "\x00" + what)
 		}
 	}
-	mac := func(i int, s int64) [6]byte { return [6]byte{2, byte(i), byte(s >> 24), byte(s >> 16), byte(s >> 8), byte(s)} }
+	mac := func(i int, s int64) [6]byte {
+		return [6]byte{2, byte(i), byte(s >> 24), byte(s >> 16), byte(s >> 8), byte(s)}
+	}
 	var wg sync.WaitGroup
 	nann, nlook := 1+r.Intn(2), 2+r.Intn(3)
 	rounds := 150
